@@ -52,10 +52,6 @@ fn hash_str(s: &str) -> u64 {
 fn write_replay(prop: &str, v: &ViolationRec, dir: &str) -> String {
     let key = format!("{}|{:?}|{}", v.machine, v.ops, profile_name());
     let path = format!("{dir}/{prop}-{}-{:016x}.json", profile_name(), hash_str(&key));
-    // a handful of the longest sampled histories across machines
-    let mut top_samples = samples.clone();
-    top_samples.sort_by_key(|x| std::cmp::Reverse(x.len()));
-    top_samples.truncate(8);
     let body = json!({
         "property": prop,
         "profile": profile_name(),
